@@ -372,12 +372,7 @@ PAIR_FUNCS = ["tlslite.tlsconnection:TLSConnection._handshakeClientAsyncHelper",
 
 PAIR_RND = P.RandomSource(None)
 
-SUITES13 = {"aes128": CipherSuite.TLS_AES_128_GCM_SHA256,
-            "aes256": CipherSuite.TLS_AES_256_GCM_SHA384,
-            "chacha": CipherSuite.TLS_CHACHA20_POLY1305_SHA256}
-CIPHER13 = {"aes128": ("aes128gcm", 16, "sha256"),
-            "aes256": ("aes256gcm", 32, "sha384"),
-            "chacha": ("chacha20-poly1305", 32, "sha256")}
+SUITES13 = P.SUITES13
 
 
 def _shapes_c03_6(tier):
@@ -410,56 +405,16 @@ def c03_6(I, shape):
     schedule evaluated over the transcript seen on the wire; every protected
     record is sealed under the key and sequence number of its epoch;
     exporters and application data agree"""
-    PAIR_RND.I = I
-    PAIR_RND.log = []
-    P.ModelKEX.log = []
-    P.PairAEAD.instances = []
-    auth, sname = shape["auth"], shape["suite"]
-    cname, klen, alg = CIPHER13[sname]
-    n = SIZES[alg][0]
-
-    def mk():
-        s = HandshakeSettings()
-        s.minVersion = s.maxVersion = (3, 4)
-        s.cipherNames = [cname]
-        s.keyShares = ["x25519"]
-        s.eccCurves = ["x25519"]
-        s.dhGroups = []
-        s.ticket_count = 0
-        return s
-    cset, sset = mk(), mk()
-    psk = None
-    if auth.startswith("psk"):
-        psk = I.bytes(n, "psk")
-        mode = "psk_dhe_ke" if auth == "psk_dhe" else "psk_ke"
-        cfg = [(bytearray(b"ident"), newbuf(list(psk)), alg)]
-        cset.pskConfigs = cfg
-        sset.pskConfigs = [(bytearray(b"ident"), newbuf(list(psk)), alg)]
-        cset.psk_modes = [mode]
-        sset.psk_modes = [mode]
-    skey = P.model_key(RSA_CHAIN, RSA_KEY, "srv")
-    ckey = P.model_key(EC_CHAIN, EC_KEY, "cli")
-    want_client_cert = auth == "cert+client"
-
-    def cgen(conn):
-        if want_client_cert:
-            return conn.handshakeClientCert(EC_CHAIN, ckey, settings=cset,
-                                            async_=True)
-        return conn.handshakeClientCert(settings=cset, async_=True)
-
-    def sgen(conn):
-        if auth.startswith("psk"):
-            return conn.handshakeServerAsync(settings=sset)
-        return conn.handshakeServerAsync(certChain=RSA_CHAIN, privateKey=skey,
-                                         reqCert=want_client_cert,
-                                         settings=sset)
-    cep, sep, wire = P.run_pair(cgen, sgen)
-    c, s = cep.conn, sep.conn
-    I.check(cep.done and sep.done and cep.error is None and
-            sep.error is None, "honest-handshake-completes",
+    sc = P.Scenario13(I, PAIR_RND, shape["auth"], shape["suite"]).run()
+    auth, sname = sc.auth, sc.sname
+    alg, n, klen, psk = sc.alg, sc.n, sc.klen, sc.psk
+    cep, sep, wire, c, s = sc.cep, sc.sep, sc.wire, sc.c, sc.s
+    skey, ckey = sc.skey, sc.ckey
+    want_client_cert = sc.client_auth
+    I.check(sc.both_completed(), "honest-handshake-completes",
             detail=lambda: dict(client=repr(cep.error), server=repr(sep.error),
                                 cdone=cep.done, sdone=sep.done))
-    if not (cep.done and sep.done) or cep.error or sep.error:
+    if not sc.both_completed():
         return
     view = P.WireView(wire)
     shared = None
@@ -494,7 +449,7 @@ def c03_6(I, shape):
             ("c", "hs"): ref.key_iv(ref.c_hs, klen),
             ("s", "ap"): ref.key_iv(ref.s_ap, klen),
             ("c", "ap"): ref.key_iv(ref.c_ap, klen)}
-    tagname = {"aes128": "gcm", "aes256": "gcm", "chacha": "chacha"}[sname]
+    tagname = sc.tagname
     epoch = {"c": "hs", "s": "hs"}
     seq = {"c": 0, "s": 0}
     for r in view.protected:
@@ -543,3 +498,252 @@ def c03_6(I, shape):
                     "client-chain-agreed")
             I.check(len(ckey.verified) >= 1,
                     "client-proof-verified-by-the-server")
+
+
+# ---------------------------------------------------------------------------
+# C03.7  two live TLS 1.0-1.2 endpoints: agreement and the RFC 5246 schedule
+# ---------------------------------------------------------------------------
+import tlslite.messages as M
+from tlslite.utils.codec import Parser
+
+PAIR12_FUNCS = [
+    "tlslite.tlsconnection:TLSConnection._handshakeClientAsyncHelper",
+    "tlslite.tlsconnection:TLSConnection._clientKeyExchange",
+    "tlslite.tlsconnection:TLSConnection._clientFinished",
+    "tlslite.tlsconnection:TLSConnection._handshakeServerAsyncHelper",
+    "tlslite.tlsconnection:TLSConnection._serverCertKeyExchange",
+    "tlslite.tlsconnection:TLSConnection._serverFinished",
+    "tlslite.tlsconnection:TLSConnection._calculate_master_secret",
+    "tlslite.tlsconnection:TLSConnection._sendFinished",
+    "tlslite.tlsconnection:TLSConnection._getFinished",
+    "tlslite.recordlayer:RecordLayer.calcPendingStates",
+    "tlslite.mathtls:calc_key", "tlslite.mathtls:PRF",
+    "tlslite.mathtls:PRF_1_2", "tlslite.mathtls:PRF_1_2_SHA384",
+    "tlslite.keyexchange:RSAKeyExchange",
+    "tlslite.keyexchange:DHE_RSAKeyExchange",
+    "tlslite.keyexchange:ECDHE_RSAKeyExchange"]
+
+PAIR_RND12 = P.RandomSource(None)
+
+# cipher name -> (kind, key length, fixed-iv length, block, tag-function name)
+CIPHER12 = {"aes128gcm": ("gcm", 16, 4, 0, "aes128gcm"),
+            "aes256gcm": ("gcm", 32, 4, 0, "aes256gcm"),
+            "chacha20-poly1305": ("chacha", 32, 12, 0, "chacha20-poly1305"),
+            "aes128": ("cbc", 16, 16, 16, None),
+            "aes256": ("cbc", 32, 16, 16, None),
+            "3des": ("cbc", 24, 8, 8, None),
+            "rc4": ("stream", 16, 0, 0, None)}
+MACLEN = {"sha": (20, "sha1"), "sha256": (32, "sha256"),
+          "sha384": (48, "sha384"), "md5": (16, "md5")}
+
+
+def _pair12_patches(shape):
+    P.ModelKEX.rnd = PAIR_RND12
+    return (P.pair_proxies(), P.pair12_stubs(PAIR_RND12))
+
+
+def _shapes_c03_7(tier):
+    out = []
+
+    def add(v, kxn, cipher, mac="sha", ems=True, etm=True):
+        out.append(dict(version=list(v), kx=kxn, cipher=cipher, mac=mac,
+                        ems=ems, etm=etm))
+    for kxn in ("rsa", "dhe_rsa", "ecdhe_rsa"):
+        add((3, 3), kxn, "aes128gcm")
+        add((3, 3), kxn, "aes128", "sha")
+    add((3, 3), "ecdhe_rsa", "aes256gcm")
+    add((3, 3), "ecdhe_rsa", "chacha20-poly1305")
+    add((3, 3), "ecdhe_rsa", "aes256", "sha384")
+    add((3, 3), "dhe_rsa", "aes256", "sha256")
+    add((3, 3), "ecdhe_rsa", "aes128", "sha", True, False)
+    add((3, 3), "ecdhe_rsa", "aes128", "sha", False, True)
+    add((3, 3), "rsa", "aes128gcm", "sha", False, False)
+    add((3, 3), "ecdhe_ecdsa", "aes128gcm")
+    for v in ((3, 1), (3, 2)):
+        add(v, "rsa", "aes128", "sha")
+        add(v, "ecdhe_rsa", "aes128", "sha", True, False)
+        add(v, "dhe_rsa", "3des", "sha", False, True)
+    add((3, 1), "rsa", "rc4", "sha")
+    add((3, 2), "rsa", "rc4", "md5", False, False)
+    return out
+
+
+def _has_ext(msg, t):
+    return msg.getExtension(t) is not None
+
+
+@obligation("C03.7", _shapes_c03_7, functions=PAIR12_FUNCS,
+            assumes=P.PAIR_ASSUMES + [
+                "TLS 1.0/1.1/1.2; RSA, DHE_RSA (ffdhe2048, real modular "
+                "arithmetic on fixed exponents), ECDHE (x25519 model) key "
+                "exchange; RSA encryption model enc(m) = 0xEE || m; CBC and "
+                "RC4 modelled as identity encryption with the real MAC / "
+                "padding code over the HMAC model; one cipher/MAC/key "
+                "exchange per shape; no tickets, no client authentication"],
+            patches=_pair12_patches, max_paths=64, timeout=(600, 1800),
+            also=("C04", "C09", "C02"))
+def c03_7(I, shape):
+    """honest TLS <= 1.2 peers complete; both hold the same master secret,
+    equal to the RFC 5246 / 7627 value over the wire transcript; Finished
+    values, key block use (every protected record carries the MAC/tag of
+    its direction's key and sequence number), EMS / EtM flags, exporters and
+    application data agree"""
+    version = tuple(shape["version"])
+    sc = P.Scenario12(I, PAIR_RND12, version, shape["kx"], shape["cipher"],
+                      shape["mac"], shape["ems"], shape["etm"]).run()
+    cep, sep, c, s = sc.cep, sc.sep, sc.c, sc.s
+    I.check(sc.both_completed(), "honest-handshake-completes",
+            detail=lambda: dict(client=repr(cep.error), server=repr(sep.error),
+                                cdone=cep.done, sdone=sep.done,
+                                crash=cep.crash or sep.crash))
+    if not sc.both_completed():
+        return
+    view = P.WireView12(sc.wire)
+    ch = M.ClientHello().parse(Parser(newbuf(
+        view.first("c", HandshakeType.client_hello)[1:])))
+    sh = M.ServerHello().parse(Parser(newbuf(
+        view.first("s", HandshakeType.server_hello)[1:])))
+    cr, sr = list(ch.random), list(sh.random)
+    suite = sh.cipher_suite
+    cs, ss = c.session, s.session
+    I.check(c.version == version and s.version == version and
+            tuple(sh.server_version) == version, "version-agreed")
+    I.check(cs.cipherSuite == ss.cipherSuite == suite,
+            "suite-agreed-with-the-wire")
+    kind, klen, ivlen, block, tagname = CIPHER12[shape["cipher"]]
+    I.check(suite in CipherSuite._filterSuites([suite], sc.cset, version)
+            and suite in CipherSuite._filterSuites([suite], sc.sset, version),
+            "suite-inside-both-settings")
+    alg = "sha384" if suite in CipherSuite.sha384PrfSuites else "sha256"
+    ems = _has_ext(ch, ExtensionType.extended_master_secret) and \
+        _has_ext(sh, ExtensionType.extended_master_secret)
+    etm = _has_ext(ch, ExtensionType.encrypt_then_mac) and \
+        _has_ext(sh, ExtensionType.encrypt_then_mac)
+    I.check(ems == shape["ems"], "ems-negotiated-as-configured")
+    I.check(etm == (shape["etm"] and kind == "cbc"),
+            "etm-negotiated-only-for-cbc")
+    I.check(cs.extendedMasterSecret == ss.extendedMasterSecret == ems,
+            "ems-flag-agreed")
+    I.check(cs.encryptThenMAC == ss.encryptThenMAC == etm, "etm-flag-agreed")
+    pm = sc.premaster()
+    I.check(pm is not None, "premaster-observed")
+
+    def th(msgs, which=None):
+        data = [x for m in msgs for x in m]
+        if version >= (3, 3):
+            return list(hash_bytes(alg, data))
+        return list(hash_bytes("md5", data)) + list(hash_bytes("sha1", data))
+    upto_cke = []
+    for w, t, b in view.msgs:
+        upto_cke.append(b)
+        if t == HandshakeType.client_key_exchange:
+            break
+    if ems:
+        master = P.prf(version, alg, pm, b"extended master secret",
+                       th(upto_cke), 48)
+    else:
+        master = P.prf(version, alg, pm, b"master secret", cr + sr, 48)
+    I.check(seq_eq(list(cs.masterSecret), list(ss.masterSecret)),
+            "master-secret-agreed")
+    I.check(seq_eq(list(cs.masterSecret), master),
+            "master-secret-is-rfc-value")
+    # key block
+    maclen, macalg = (0, None) if kind in ("gcm", "chacha") \
+        else MACLEN[shape["mac"]]
+    kb = P.prf(version, alg, master, b"key expansion", sr + cr,
+               2 * maclen + 2 * klen + 2 * ivlen)
+    p = 0
+    parts = {}
+    for nm, ln in (("cmac", maclen), ("smac", maclen), ("ckey", klen),
+                   ("skey", klen), ("civ", ivlen), ("siv", ivlen)):
+        parts[nm] = kb[p:p + ln]
+        p += ln
+    # protected records: decode with the model's identity encryption and
+    # compare the integrity value with the reference key block
+    seq = {"c": 0, "s": 0}
+    plain = {"c": [], "s": []}
+    from symx.uf import apply_uf
+    for r in view.protected:
+        who, pl = r["sender"], list(r["payload"])
+        sq = [(seq[who] >> (8 * (7 - j))) & 0xff for j in range(8)]
+        hdr = [r["type"], r["ver"][0], r["ver"][1]]
+        key, iv, mk = parts[who + "key"], parts[who + "iv"], \
+            parts[who + "mac"]
+        if kind == "gcm":
+            nonce, pt, tag = iv + pl[:8], pl[8:-16], pl[-16:]
+            aad = sq + hdr + [len(pt) >> 8, len(pt) & 0xff]
+            want = apply_uf("TAG" + tagname, key + nonce + [len(aad)] + aad +
+                            pt, 16)
+            I.check(seq_eq(tag, list(want)) and seq_eq(pl[:8], sq),
+                    "record-sealed-under-its-key-and-sequence-number")
+        elif kind == "chacha":
+            nonce = [a ^ b for a, b in zip(iv, [0] * 4 + sq)]
+            pt, tag = pl[:-16], pl[-16:]
+            aad = sq + hdr + [len(pt) >> 8, len(pt) & 0xff]
+            want = apply_uf("TAG" + tagname, key + nonce + [len(aad)] + aad +
+                            pt, 16)
+            I.check(seq_eq(tag, list(want)),
+                    "record-sealed-under-its-key-and-sequence-number")
+        else:
+            body = pl
+            explicit = []
+            if kind == "cbc" and version >= (3, 2):
+                explicit, body = body[:block], body[block:]
+            if etm:
+                body, mac = body[:-maclen], body[-maclen:]
+                covered = explicit + body
+                want = hmac_bytes(macalg, mk, sq + hdr +
+                                  [len(covered) >> 8, len(covered) & 0xff] +
+                                  covered)
+                I.check(seq_eq(mac, list(want)),
+                        "record-maced-under-its-key-and-sequence-number")
+                padlen = int(body[-1])
+                pt = body[:-(padlen + 1)]
+            else:
+                if kind == "cbc":
+                    padlen = int(body[-1])
+                    body = body[:-(padlen + 1)]
+                pt, mac = body[:-maclen], body[-maclen:]
+                want = hmac_bytes(macalg, mk, sq + hdr +
+                                  [len(pt) >> 8, len(pt) & 0xff] + pt)
+                I.check(seq_eq(mac, list(want)),
+                        "record-maced-under-its-key-and-sequence-number")
+        plain[who].append((r["type"], pt))
+        seq[who] += 1
+    # Finished values
+    allmsgs = [b for w, t, b in view.msgs]
+    for who, label in (("c", b"client finished"), ("s", b"server finished")):
+        I.check(len(plain[who]) >= 1 and
+                plain[who][0][0] == ContentType.handshake and
+                len(plain[who][0][1]) == 16 and
+                bool(plain[who][0][1][0] == HandshakeType.finished),
+                "first-protected-record-is-finished")
+    first, second = ("c", "s")
+    fin1 = plain["c"][0][1]
+    fin2 = plain["s"][0][1]
+    want1 = P.prf(version, alg, master, b"client finished", th(allmsgs), 12)
+    want2 = P.prf(version, alg, master, b"server finished",
+                  th(allmsgs + [fin1]), 12)
+    I.check(seq_eq(fin1[4:], want1), "client-finished-is-rfc-value")
+    I.check(seq_eq(fin2[4:], want2), "server-finished-is-rfc-value")
+    # exporter (RFC 5705)
+    ea = c.keyingMaterialExporter(bytearray(b"EXPORTER-test"), 24)
+    eb = s.keyingMaterialExporter(bytearray(b"EXPORTER-test"), 24)
+    I.check(seq_eq(list(ea), list(eb)), "exported-keying-material-agreed")
+    I.check(seq_eq(list(ea), P.prf(version, alg, master, b"EXPORTER-test",
+                                   cr + sr, 24)),
+            "exported-keying-material-is-rfc5705-value")
+    for src, dst, msg in ((c, s, b"ping"), (s, c, b"pong!")):
+        for r in src.writeAsync(bytearray(msg)):
+            pass
+        got = None
+        for r in dst.readAsync(max=16, min=len(msg)):
+            if r in (0, 1) and isinstance(r, int):
+                break
+            got = r
+        I.check(got is not None and bytes(got) == msg,
+                "application-data-delivered-intact",
+                detail=lambda: dict(got=repr(got)))
+    I.check(P.fp(cs.serverCertChain) == P.fp(sc.srv_chain) and
+            P.fp(ss.serverCertChain) == P.fp(sc.srv_chain),
+            "server-chain-agreed")
